@@ -17,6 +17,7 @@ R6  the three places that make DFA transitions (match loop, yy_get_previous_stat
     backing-up information (yy_last_accepting_state / yy_last_accepting_cpos).
 R7  the saved copies in the buffer object (yy_buffer_state.yy_n_chars, .yy_buf_pos) are only read to reload the scanner
     registers; R3's end pointer is formed from the register.
+R9  the result of getc() is compared with EOF at its full int width (no truncation to 8 bits before the test).
 R5  input bytes index tables unsigned: in yylex / yy_get_previous_state / yy_try_NUL_trans every byte loaded through a
     pointer into the buffer that flows into the index of a scanner table is zero-extended, never sign-extended.
 """
@@ -398,6 +399,59 @@ def r7(ctx, sc):
                 rep.ok('C04.R7', '%s %s: saved %s loaded@%s only to reload the register' % (v.name, norm(f.name), nm, x.line))
     return n
 
+# ---------------------------------------------------------------- R9
+
+GETC = ('getc', '_IO_getc', 'fgetc', 'getc_unlocked', 'getchar')
+
+def r9(ctx, sc):
+    """8-bit clean input: getc()/fgetc() returns an int so that EOF (-1) differs from every byte value.  The value that
+    is compared with EOF must therefore be the call result at its full width: on the data flow from the call to a
+    comparison with -1 there is no truncation to 8 bits (a char-typed temporary re-extends 0xFF to -1, which then ends
+    the input or drops the byte).  The copy that is stored into the buffer may be truncated, the tested value may not."""
+    rep = ctx.rep; v = sc.v; n = 0
+    for fn in sc.mod.functions.values():
+        gs = [c for c in fn.ins if c.op in ('call', 'invoke') and c.callee in GETC]
+        if not gs: continue
+        a = sc.fa(fn)
+        def origin(val, narrowed, seen, depth=0):
+            """yield (call, narrowed) for every getc call the value can come from"""
+            if depth > 30 or not isinstance(val, tuple) or val[0] != 'reg' or (val[1], narrowed) in seen: return
+            seen.add((val[1], narrowed))
+            d = fn.def_of(val)
+            if d is None: return
+            if d in gs: yield (d, narrowed); return
+            if d.op in ('sext', 'zext', 'trunc'):
+                small = (d.ty is not None and d.ty.k == 'int' and d.ty.a < 32) or (d.srcty is not None and d.srcty.k == 'int' and d.srcty.a < 32)
+                yield from origin(d.ops[0], narrowed or small, seen, depth + 1); return
+            if d.op in ('phi', 'select'):
+                for o in (d.ops if d.op == 'phi' else d.ops[1:]): yield from origin(o, narrowed, seen, depth + 1)
+                return
+            if d.op == 'load':
+                l = a.loc(d.ops[0])
+                if l[0] == 'local':
+                    small = d.ty is not None and d.ty.k == 'int' and d.ty.a < 32
+                    for st in a.local_stores(l[1]): yield from origin(st.ops[0], narrowed or small, seen, depth + 1)
+        tested = set()
+        for x in fn.ins:
+            if x.op != 'icmp' or ('int', -1) not in x.ops: continue
+            val = x.ops[0] if x.ops[1] == ('int', -1) else x.ops[1]
+            for g, narrowed in origin(val, False, set()):
+                n += 1
+                tested.add(g)
+                key = 'C04.R9:%s:%s:EOF-compared-at-int-width' % (skel(v), norm(fn.name))
+                if narrowed:
+                    rep.fail('C04.R9', key, where(x), 'in %s the result of %s() (line %s) is narrowed to 8 bits before it is compared with EOF (line %s): the byte 0xFF is taken for end of input [variant %s]' % (
+                        norm(fn.name), g.callee, g.line, x.line, v.name), variant=v.describe(), replay_input='interactive scanner (%option interactive, stdin a terminal or always-interactive), input containing the byte \\xff')
+                else:
+                    rep.ok('C04.R9', '%s %s: %s@%s compared with EOF@%s at full int width' % (v.name, norm(fn.name), g.callee, g.line, x.line))
+        for g in gs:
+            if g not in tested:
+                n += 1
+                rep.fail('C04.R9', 'C04.R9:%s:%s:EOF-not-tested' % (skel(v), norm(fn.name)), where(g), 'the result of %s() in %s is never compared with EOF [variant %s]' % (g.callee, norm(fn.name), v.name), variant=v.describe())
+    if n == 0:
+        c03.vac(rep, v, 'C04.R9: no getc()/fgetc() in this variant (%s)' % ('C++ reads through std::istream' if v.backend == 'cxx' else 'the scanner uses read(2) / fread, or has no yyread'))
+    return n
+
 # ---------------------------------------------------------------- R4 (flex itself)
 
 def r4(ctx):
@@ -613,7 +667,7 @@ def run(ctx):
     vs = [v for v in ctx.variants() if c03.usable(v)]
     rep.require(len(vs) >= 60, 'only %d scanner variants compiled to IR' % len(vs))
     positive_control(ctx)
-    tot = {'R1': 0, 'R2': 0, 'R3': 0, 'R5': 0, 'R6': 0, 'R7': 0}
+    tot = {'R1': 0, 'R2': 0, 'R3': 0, 'R5': 0, 'R6': 0, 'R7': 0, 'R9': 0}
     backends = set()
     for v in vs:
         sc = Scanner(v)
@@ -626,20 +680,23 @@ def run(ctx):
         tot['R5'] += r5(ctx, sc)
         tot['R6'] += r6(ctx, sc, lex)
         tot['R7'] += r7(ctx, sc)
+        tot['R9'] += r9(ctx, sc)
     n4 = r4(ctx)
     r8(ctx)
     rep.require(backends == {'nr', 'r', 'cxx', 'c99', 'go'}, 'back ends analysed: %s' % sorted(backends))
     rep.setcount('variants_analysed', len(vs))
     for k, n in tot.items(): rep.setcount('instances_' + k, n)
     rep.setcount('instances_R4', n4)
-    rep.require(tot['R1'] >= 2 * len(vs), 'C04.R1 matched %d instances, 2 per variant expected' % tot['R1'])
-    rep.require(tot['R2'] >= 5 * len(vs), 'C04.R2 matched %d instances, 4..7 per variant expected' % tot['R2'])
-    rep.require(tot['R3'] >= 2 * len(vs) - 8, 'C04.R3 matched %d instances, 2 per variant (yylex, yyinput) expected' % tot['R3'])
-    rep.require(tot['R5'] >= 2 * len(vs), 'C04.R5 matched %d byte-to-table-index flows, at least 2 per variant (match loop of yylex, yy_get_previous_state) expected' % tot['R5'])
-    rep.require(tot['R6'] >= 3 * (len(vs) // 2), 'C04.R6 matched %d instances, 3 per non-REJECT variant expected' % tot['R6'])
-    rep.require(tot['R7'] >= 3 * len(vs), 'C04.R7 matched %d loads of saved buffer state, 3 per variant expected (2 in yy_load_buffer_state, 1 in yylex)' % tot['R7'])
+    c03.count_guard(rep, tot['R1'] >= 2 * len(vs), 'C04.R1 matched %d instances, 2 per variant expected' % tot['R1'])
+    c03.count_guard(rep, tot['R2'] >= 5 * len(vs), 'C04.R2 matched %d instances, 4..7 per variant expected' % tot['R2'])
+    c03.count_guard(rep, tot['R3'] >= 2 * len(vs) - 8, 'C04.R3 matched %d instances, 2 per variant (yylex, yyinput) expected' % tot['R3'])
+    c03.count_guard(rep, tot['R5'] >= 2 * len(vs), 'C04.R5 matched %d byte-to-table-index flows, at least 2 per variant (match loop of yylex, yy_get_previous_state) expected' % tot['R5'])
+    c03.count_guard(rep, tot['R6'] >= 3 * (len(vs) // 2), 'C04.R6 matched %d instances, 3 per non-REJECT variant expected' % tot['R6'])
+    c03.count_guard(rep, tot['R7'] >= 3 * len(vs), 'C04.R7 matched %d loads of saved buffer state, 3 per variant expected (2 in yy_load_buffer_state, 1 in yylex)' % tot['R7'])
     for r in ('C04.R1', 'C04.R2', 'C04.R3', 'C04.R5', 'C04.R6', 'C04.R7'): rep.floor(r, 1, 'see instances_* counters')
     rep.floor('C04.R4', 3, 'ccladd, mkstate, check_char')
+    c03.count_guard(rep, tot['R9'] >= 120, 'C04.R9 matched %d EOF comparisons of getc results, 2 per C variant with stdio input expected' % tot['R9'])
+    rep.floor('C04.R9', 1, 'EOF comparisons in yyread')
     rep.floor('C04.R8', 1, 'census of generator loops')
     rep.undecided += ['behaviour of NUL relative to refills, back-ups and push-back for all inputs',
                       'the comparison operator of the NUL-versus-end test (<= in yylex, < in yyinput) - a value question',
